@@ -32,3 +32,114 @@ M("C11", "box-size-2", ("propka/bonds.py", "box_size = max(BOX_SIZE, self.max_sq
 M("C11", "flag-only-atom1", ("propka/bonds.py", "                atom2.cysteine_bridge = True\n", "                atom2.cysteine_bridge = atom2.cysteine_bridge or atom1.x < atom2.x\n"))
 M("C11", "skip-dense-cells", ("propka/bonds.py", "            self.find_bonds_for_atoms(value)\n", "            self.find_bonds_for_atoms(value[:60])\n"))
 M("C11", "drop-offset-corner", ("propka/bonds.py", "                (-1, 1, 1),\n", ""))
+
+# ---------------------------------------------------------------- C01
+M("C01", "o-double-prime-not-terminal", ("propka/input.py", "if  residue_name.strip() in ['OXT', 'O\\'\\'']:", "if  residue_name.strip() in ['OXT']:"))
+M("C01", "summary-skips-negative-numbers", ("propka/output.py", "        for group in protein.conformations[conformation].groups:\n            if group.residue_type == residue_type:\n                str_ += \"{0:s}\".format(\n                    group.get_summary_string(",
+                                             "        for group in protein.conformations[conformation].groups:\n            if group.residue_type == residue_type and group.atom.res_num >= 0:\n                str_ += \"{0:s}\".format(\n                    group.get_summary_string("))
+M("C01", "three-letter-ions-ignored", ("propka/group.py", "    if atom.res_name.strip() in parameters.ions.keys():", "    if atom.res_name.strip() in parameters.ions.keys() and len(atom.res_name.strip()) < 3:"))
+M("C01", "model-record-does-not-start-a-chain", ("propka/input.py", "            model = int(line[6:])\n            nterm_residue = 'next_residue'", "            model = int(line[6:])"))
+M("C01", "short-ter-lines-ignored", ("propka/input.py", "        if tag == 'TER   ':", "        if tag == 'TER   ' and len(line) > 8:"))
+M("C01", "nterm-model-pka-custom", ("propka/group.py", "                if key in self.parameters.custom_model_pkas.keys():", "                if key in self.parameters.custom_model_pkas.keys() or (self.atom.res_num > 999 and self.type == 'LYS' and not self.model_pka_set and self.parameters.model_pkas.update({'LYS': 10.4}) is None and False):"))
+M("C01", "tyr-after-icode-skipped", ("propka/group.py", "    key = '{0:s}-{1:s}'.format(atom.res_name, atom.name)\n    if key in parameters.protein_group_mapping.keys():", "    key = '{0:s}-{1:s}'.format(atom.res_name, atom.name)\n    if key in parameters.protein_group_mapping.keys() and not (atom.icode.strip() and atom.res_name == 'TYR'):"))
+# ---------------------------------------------------------------- C02
+M("C02", "truediv-forgets-determinants", ("propka/group.py", "            for determinant in self.determinants[type_]:\n                determinant.value /= value\n", "            for determinant in self.determinants[type_][:1]:\n                determinant.value /= value\n"))
+M("C02", "table-drops-fourth-row", ("propka/group.py", "        for line_number in range(number_of_lines):", "        for line_number in range(min(number_of_lines, 3)):"))
+M("C02", "table-prints-local-in-volume-column", ("propka/group.py", "                    self.energy_volume, int(self.num_volume))", "                    self.energy_local if self.energy_local else self.energy_volume, int(self.num_volume))"))
+M("C02", "no-recompute-after-sharing", ("propka/conformation_container.py", "        elif self.parameters.shared_determinants:\n", "        elif False:\n"))
+M("C02", "summary-rounds-down", ("propka/group.py", "            \"   {g.label:>9s} {g.pka_value:8.2f} {g.model_pka:10.2f} \"", "            \"   {g.label:>9s} {pk:8.2f} {g.model_pka:10.2f} \""),
+  ("propka/group.py", "        return fmt.format(g=self, type=ligand_type, penalty=penalty)", "        return fmt.format(g=self, type=ligand_type, penalty=penalty, pk=int(self.pka_value * 10) / 10.0 if self.pka_value > 14 else self.pka_value)"))
+M("C02", "swap-display-no-recompute", ("propka/coupled_groups.py", "                # re-calculate pKa values\n                group1.calculate_total_pka()\n                group2.calculate_total_pka()", "                # re-calculate pKa values\n                group1.calculate_total_pka()"))
+# ---------------------------------------------------------------- C03
+M("C03", "coupled-systems-in-set-order", ("propka/conformation_container.py", "            ordered_system = [g for g in ordered_groups if id(g) in in_system]\n            listed = {id(g) for g in ordered_system}\n            ordered_system += [g for g in system if id(g) not in listed]\n            yield ordered_system", "            yield system"))
+M("C03", "stream-input-loses-first-atom-line", ("propka/input.py", "        input_file.seek(0)\n        return contextlib.nullcontext(input_file)", "        input_file.seek(0)\n        if input_file.read(4) != 'ATOM':\n            input_file.seek(0)\n        return contextlib.nullcontext(input_file)"))
+M("C03", "nccg-parameters-sticky", ("propka/coupled_groups.py", "        self.parameters = conformation.parameters\n", "        if self.parameters is None:\n            self.parameters = conformation.parameters\n"))
+M("C03", "main-shares-chain-bookkeeping", ("propka/conformation_container.py", "        self.chains: List[str] = []\n", "        self.chains: List[str] = ConformationContainer._chains\n"),
+  ("propka/conformation_container.py", "    def extract_groups(self):\n        \"\"\"Generate molecular groups needed for calculating pKa values.\"\"\"", "    _chains: List[str] = []\n\n    def extract_groups(self):\n        \"\"\"Generate molecular groups needed for calculating pKa values.\"\"\""))
+# ---------------------------------------------------------------- C04
+M("C04", "x-field-one-column-short", ("propka/atom.py", "            self.x = float(line[30:38].strip())", "            self.x = float(line[31:38].strip())"))
+M("C04", "desolvation-skips-negative-octant", ("propka/energy.py", "        sq_dist = squared_distance(group, atom)\n        # desolvation", "        sq_dist = squared_distance(group, atom)\n        if atom.x < -600.0 and atom.y < -600.0:\n            continue\n        # desolvation"))
+M("C04", "angle-factor-uses-absolute-origin", ("propka/energy.py", "        dx_21 = center[0] - atom2.x", "        dx_21 = center[0] - atom2.x if abs(center[0]) < 2000 else center[0]"))
+M("C04", "planarity-depends-on-z", ("propka/ligand.py", "    margin = PLANARITY_MARGIN\n", "    margin = PLANARITY_MARGIN if atoms[0].z > -400 else 0.0\n"))
+# ---------------------------------------------------------------- C05
+M("C05", "max-distance-1e6-again", ("propka/calculations.py", "MAX_DISTANCE = math.inf", "MAX_DISTANCE = 1e6"))
+M("C05", "desolvation-sees-first-3200-atoms", ("propka/energy.py", "    for atom in all_atoms:\n        # ignore atoms in the same residue", "    for atom in all_atoms[:3200]:\n        # ignore atoms in the same residue"))
+M("C05", "solver-gives-up-on-large-systems", ("propka/iterative.py", "        if iteration == 10:", "        if iteration == 10 or (iteration == 2 and len(iteratives) > 120):"))
+M("C05", "buried-count-normalised-by-size", ("propka/energy.py", "    group.buried = calculate_weight(parameters, group.num_volume)", "    group.buried = calculate_weight(parameters, group.num_volume if len(all_atoms) < 5000 else group.num_volume * 0.98)"))
+# ---------------------------------------------------------------- C06
+M("C06", "same-residue-test-case-insensitive-chain", ("propka/energy.py", "                and atom.chain_id == group.atom.chain_id):", "                and atom.chain_id.upper() == group.atom.chain_id.upper()):"))
+M("C06", "label-uses-abs-number", ("propka/group.py", "            fmt = \"{g.residue_type:<3s}{a.res_num:>4d}{a.chain_id:>2s}\"\n            self.label = fmt.format(g=self, a=atom)", "            fmt = \"{g.residue_type:<3s}{n:>4d}{a.chain_id:>2s}\"\n            self.label = fmt.format(g=self, a=atom, n=abs(atom.res_num))"))
+M("C06", "nterm-by-number-only-again", ("propka/input.py", "            residue_number = line[21: 27]", "            residue_number = line[22: 26]"))
+# ---------------------------------------------------------------- C07
+M("C07", "element-from-columns-77-78", ("propka/atom.py", "            if len(self.element) == 2:\n                self.element = '{0:1s}{1:1s}'.format(", "            if len(line) > 77 and line[76:78].strip().isalpha():\n                self.element = line[76:78].strip()\n            if len(self.element) == 2:\n                self.element = '{0:1s}{1:1s}'.format("))
+M("C07", "atom-tagged-water-kept", ("propka/input.py", "            if line[17: 20] in ignore_residues:", "            if line[17: 20] in ignore_residues and tag == 'HETATM':"))
+M("C07", "endmdl-acts-as-ter", ("propka/input.py", "        if tag == 'TER   ':", "        if tag in ('TER   ', 'ENDMDL'):"))
+M("C07", "hydrogens-by-name-prefix", ("propka/input.py", "            if not (atom.element == 'H' and not keep_protons):", "            if not (atom.name.startswith('H') and not keep_protons):"))
+M("C07", "occupancy-zero-atoms-skipped", ("propka/input.py", "            atom.terminal = terminal\n", "            atom.terminal = terminal\n            if atom.occ in ('0.00', '0.0'):\n                continue\n"))
+M("C07", "protonate-all-before-pi-information", ("propka/hydrogens.py", "    # apply information on pi electrons\n    my_bond_maker.add_pi_electron_information(molecular_container)\n    # Protonate atoms\n    if molecular_container.options.protonate_all:\n        protonator = Protonate(verbose=False)\n        protonator.protonate(molecular_container)", "    # Protonate atoms\n    if molecular_container.options.protonate_all:\n        protonator = Protonate(verbose=False)\n        protonator.protonate(molecular_container)\n    # apply information on pi electrons\n    my_bond_maker.add_pi_electron_information(molecular_container)"))
+# ---------------------------------------------------------------- C08
+M("C08", "average-divides-by-all-again", ("propka/molecular_container.py", "            avr_group = avr_group / number_of_conformations", "            avr_group = avr_group / len(self.conformation_names)"))
+M("C08", "first-conformation-groups-only", ("propka/molecular_container.py", "        for i, name in enumerate(self.conformation_names):\n            for group in self.conformations[name].get_groups_for_calculations():", "        for i, name in enumerate(self.conformation_names[:1]):\n            for group in self.conformations[name].get_groups_for_calculations():"))
+M("C08", "find-group-ignores-type", ("propka/conformation_container.py", "                if group_.type == group.type:\n                    return group_", "                if group_.type == group.type or group_.titratable:\n                    return group_"))
+M("C08", "topup-merges-residue-types", ("propka/conformation_container.py", "                    # don't merge different residue types, e.g. alt-loc mutant\n                    continue", "                    # don't merge different residue types, e.g. alt-loc mutant\n                    pass"))
+M("C08", "topup-single-reference-again", ("propka/molecular_container.py", "            conf.top_up_from_atoms(ref_atoms)", "            conf.top_up_from_atoms({a.residue_label: a for a in reversed(ref_atoms)}.values())"))
+M("C08", "iadd-skips-buried", ("propka/group.py", "        self.buried += other.buried\n", "        self.buried = max(self.buried, other.buried)\n"))
+# ---------------------------------------------------------------- C09
+M("C09", "charge-profile-columns-swapped", ("propka/molecular_container.py", "            charge_profile.append([ph, q_unfolded, q_folded])", "            charge_profile.append([ph, q_folded, q_unfolded])"))
+M("C09", "charge-sums-ions", ("propka/conformation_container.py", "        unfolded = folded = 0.0\n        for group in self.get_titratable_groups():", "        unfolded = folded = 0.0\n        for group in self.get_titratable_groups() + self.get_ions():"))
+M("C09", "pi-coarse-precision", ("propka/molecular_container.py", "            if max_ - min_ > precision:", "            if max_ - min_ > precision * 8:"))
+M("C09", "charge-table-prints-folded-twice", ("propka/output.py", "                ph=ph, qm=q_mod, qp=q_pro)", "                ph=ph, qm=q_pro if abs(q_pro - q_mod) < 0.3 else q_mod, qp=q_pro)"))
+# ---------------------------------------------------------------- C10
+M("C10", "energy-scaling-138", ("propka/group.py", "UNK_PKA_SCALING = -1.36", "UNK_PKA_SCALING = -1.38"))
+M("C10", "grid-accumulates-again", ("propka/lib.py", "    for i in range(num_steps + 1):\n        yield min_ + i * step", "    x = min_\n    while x <= max_:\n        yield x\n        x += step"))
+M("C10", "window-lower-bound-exclusive", ("propka/output.py", "            if ph >= window[0] and ph <= window[1]:", "            if ph > window[0] and ph <= window[1]:"))
+M("C10", "optimum-is-last-minimum-or-max", ("propka/molecular_container.py", "            opt = min(opt, point, key=lambda v: v[1])", "            opt = min(opt, point, key=lambda v: round(v[1], 0))"))
+M("C10", "window-step-one-again", ("propka/output.py", "remainder > delta - Decimal(\"0.05\")", "remainder > Decimal(\"0.95\")"))
+M("C10", "neutral-reference-leaks-into-low-ph", ("propka/group.py", "        if reference == 'neutral' and self.charge > 0.00:", "        if self.charge > 0.00 and (reference == 'neutral' or ph > 9.0):"))
+# ---------------------------------------------------------------- C12
+M("C12", "coo-center-without-oxygens", ("propka/group.py", "        if the_oxygens:\n            self.set_center(the_oxygens)\n        else:\n            self.set_center([self.atom])\n            # TODO - perhaps it would be better to ignore this group completely\n            # if the oxygen is missing from this residue?\n        self.set_interaction_atoms(the_oxygens, the_oxygens)\n\n\nclass HISGroup", "        self.set_center(the_oxygens)\n        self.set_interaction_atoms(the_oxygens, the_oxygens)\n\n\nclass HISGroup"))
+M("C12", "hbond-no-none-guard", ("propka/energy.py", "    if closest_atom1 is None or closest_atom2 is None:\n        _LOGGER.warning(\n            'Side chain interaction failed for {0:s} and {1:s}'.format(\n                group1.label, group2.label))\n        return None", "    pass"))
+M("C12", "cterm-needs-carbon", ("propka/group.py", "        if not the_carbons:\n            self.set_center([self.atom])", "        if False:\n            self.set_center([self.atom])"))
+M("C12", "extension-case-sensitive", ("propka/input.py", "    if input_file_extension.lower() == '.pdb':", "    if input_file_extension == '.pdb':"))
+M("C12", "precheck-raises-on-tiny-residue", ("propka/lib.py", "            # check number of atoms in residue\n            if len(res_atoms) != EXPECTED_ATOM_NUMBERS[res_name]:", "            # check number of atoms in residue\n            if len(res_atoms) == 1 and res_name == 'TRP':\n                raise KeyError(residue_label)\n            if len(res_atoms) != EXPECTED_ATOM_NUMBERS[res_name]:"))
+M("C12", "amide-needs-both-atoms", ("propka/group.py", "        if not (the_oxygen and the_nitrogen):", "        if not (the_oxygen or the_nitrogen):"))
+M("C12", "his-ring-required", ("propka/group.py", "        if ring_atoms:\n            self.set_center(ring_atoms)", "        if True:\n            self.set_center(ring_atoms)"))
+# ---------------------------------------------------------------- C13
+M("C13", "chain-filter-after-terminus-bookkeeping", ("propka/input.py", "            if chains and line[21] not in chains:\n                continue\n", ""),
+  ("propka/input.py", "            # Identify the configuration\n", "            if chains and line[21] not in chains:\n                continue\n            # Identify the configuration\n"))
+M("C13", "blank-chain-compared-as-underscore", ("propka/input.py", "            if chains and line[21] not in chains:", "            if chains and (line[21].strip() or '_') not in chains:"))
+M("C13", "hetatm-kept-regardless-of-chain", ("propka/input.py", "            if chains and line[21] not in chains:", "            if chains and line[21] not in chains and tag == 'ATOM  ':"))
+M("C13", "only-first-two-chains-honoured", ("propka/input.py", "            if chains and line[21] not in chains:", "            if chains and line[21] not in chains[:2]:"))
+# ---------------------------------------------------------------- C14
+M("C14", "titrate-only-ignores-icode", ("propka/conformation_container.py", "            if (atom.chain_id, atom.res_num, atom.icode) not in titrate_only:", "            if (atom.chain_id, atom.res_num) not in [t[:2] for t in titrate_only]:"))
+M("C14", "unlisted-cys-still-reported", ("propka/conformation_container.py", "                if group.residue_type == 'CYS':\n                    group.exclude_cys_from_results = True", "                if group.residue_type == 'CYS' and atom.res_num < 0:\n                    group.exclude_cys_from_results = True"))
+M("C14", "icode-parsed-away", ("propka/lib.py", "            inscode = resnum_str[-1]", "            inscode = \" \""))
+M("C14", "unlisted-groups-dropped", ("propka/conformation_container.py", "        self.init_group(group)\n        self.groups.append(group)", "        self.init_group(group)\n        if self.molecular_container.options.titrate_only is not None and not group.titratable and group.type in ('ROH', 'AMD', 'TRP'):\n            return\n        self.groups.append(group)"))
+M("C14", "negative-numbers-unlistable", ("propka/lib.py", "        resnum = int(resnum_str)\n", "        resnum = abs(int(resnum_str))\n"))
+# ---------------------------------------------------------------- C15
+M("C15", "swap-back-only-coulomb", ("propka/coupled_groups.py", "        # Swap back to original protonation state\n        self.swap_interactions([group1], [group2])", "        # Swap back to original protonation state\n        self.swap_interactions([group1], [group2], include_side_chain_hbs=abs(default_pka1 - default_pka2) < 3.0)"))
+M("C15", "transfer-forgets-label", ("propka/coupled_groups.py", "        for det in from2to1:\n            det.label = label2", "        for det in from2to1:\n            det.label = det.label"))
+M("C15", "early-return-before-swap-back", ("propka/coupled_groups.py", "        pka_shift2 = swapped_pka2 - default_pka2\n", "        pka_shift2 = swapped_pka2 - default_pka2\n        if abs(default_energy - swapped_energy) > 4 * self.parameters.max_free_energy_diff and return_on_fail:\n            return {'coupling_factor': -1.0}\n"))
+M("C15", "one-sided-coupling", ("propka/group.py", "        if self not in other.non_covalently_coupled_groups:\n            other.non_covalently_coupled_groups.append(self)", "        if self not in other.non_covalently_coupled_groups and self.charge == other.charge:\n            other.non_covalently_coupled_groups.append(self)"))
+M("C15", "star-only-for-acids", ("propka/group.py", "                if len(self.non_covalently_coupled_groups) > 0:\n                    str_ += '*'", "                if len(self.non_covalently_coupled_groups) > 0 and self.charge < 0:\n                    str_ += '*'"))
+# ---------------------------------------------------------------- C16
+M("C16", "base-pair-coulomb-positive", ("propka/determinants.py", "        new_determinant = Determinant(object2, -value)\n        object1.determinants['coulomb'].append(new_determinant)\n    else:\n        new_determinant = Determinant(object1, -value)", "        new_determinant = Determinant(object2, value)\n        object1.determinants['coulomb'].append(new_determinant)\n    else:\n        new_determinant = Determinant(object1, -value)"))
+M("C16", "ion-determinant-sign", ("propka/determinants.py", "                    -ion_group.charge\n", "                    (-ion_group.charge if ion_group.charge > -2 else ion_group.charge)\n"))
+M("C16", "pair-weight-not-clamped", ("propka/energy.py", "    weight = float(num_volume - num_min)/float(num_max - num_min)\n    weight = min(1.0, weight)", "    weight = float(num_volume - num_min)/float(num_max - num_min)"))
+M("C16", "iterative-ion-pair-one-sided", ("propka/iterative.py", "            interaction = [object1, q2*coulomb_value]\n            annihilation[1] += -q2*coulomb_value\n            object2.determinants['coulomb'].append(interaction)", "            interaction = [object1, q2*coulomb_value]\n            annihilation[1] += -q2*coulomb_value\n            if object2.res_name != 'TYR':\n                object2.determinants['coulomb'].append(interaction)"))
+M("C16", "backbone-sign-for-ligand-bases", ("propka/determinants.py", "                    value = (\n                        titratable_group.charge\n                        * hydrogen_bond_energy(", "                    value = (\n                        (titratable_group.charge if titratable_group.atom.type == 'atom' else abs(titratable_group.charge))\n                        * hydrogen_bond_energy("))
+M("C16", "coo-coo-double-weight", ("propka/energy.py", "    value = value * (1.0 + weight)\n    return exception, value", "    value = value * (1.0 + 2 * weight)\n    return exception, value"))
+M("C16", "desolvation-sign-for-sh", ("propka/energy.py", "    group.energy_volume = (\n        group.charge * parameters.desolvationPrefactor", "    group.energy_volume = (\n        (group.charge if group.type != 'SH' else -group.charge) * parameters.desolvationPrefactor"))
+# ---------------------------------------------------------------- C17
+M("C17", "sulfur-hydrogen-length", ("propka/protonate.py", "'Br': 1.41, 'I': 1.61, 'S': 1.35}", "'Br': 1.41, 'I': 1.61, 'S': 1.45}"))
+M("C17", "tetrahedral-three-bonds-sign", ("propka/protonate.py", "            new_a = -avec1-avec2-avec3", "            new_a = -avec1-avec2+avec3"))
+M("C17", "trp-not-protonated-when-buried-name", ("propka/group.py", "        # find the hydrogen on the nitrogen atom\n        PROTONATOR.protonate_atom(self.atom)", "        # find the hydrogen on the nitrogen atom\n        if self.atom.res_num % 7:\n            PROTONATOR.protonate_atom(self.atom)"))
+M("C17", "second-amide-hydrogen-on-top", ("propka/protonate.py", "            new_a = -avec1 - avec2\n            new_a = self.set_bond_distance(new_a, atom.element)", "            new_a = -avec1 - avec2 if atom.name != 'ND2' else -avec1 - avec1\n            new_a = self.set_bond_distance(new_a, atom.element)"))
+M("C17", "no-rounding-plus-offset", ("propka/protonate.py", "            z=round(position.z, 3),", "            z=round(position.z + (0.004 if atom.element == 'O' else 0.0), 3),"))
+# ---------------------------------------------------------------- C18
+M("C18", "matrix-add-skips-mirror-of-last", ("propka/parameters.py", "                self.dictionary[group][new_group] = value\n                self.dictionary[new_group][group] = value", "                self.dictionary[group][new_group] = value\n                if i < 20 or i == len(self.ordered_keys) - 1:\n                    self.dictionary[new_group][group] = value"))
+M("C18", "pairwise-insert-one-direction", ("propka/parameters.py", "        self.insert(group1, group2, value)\n        self.insert(group2, group1, value)", "        self.insert(group1, group2, value)\n        if group1 <= group2:\n            self.insert(group2, group1, value)"))
+M("C18", "squared-set-stores-plain", ("propka/parameters.py", "        setattr(instance, self._name_not_squared, value**0.5)", "        setattr(instance, self._name_not_squared, value**0.5 if self._name_not_squared != 'buried_cutoff' else value)"))
+M("C18", "pairwise-default-ignored-after-first-pair", ("propka/parameters.py", "        except KeyError:\n            return self.default", "        except KeyError:\n            return self.default if item1 in self.dictionary or item2 not in self.dictionary else (0.0, 0.0)"))
+M("C18", "op-row-renamed", ("propka/propka.cfg", "interaction_matrix OP  I N I N N I N N N N N N N N N N N I I N N N N N N N N I#SH", "interaction_matrix Op  I N I N N I N N N N N N N N N N N I I N N N N N N N N I#SH"))
+M("C18", "cl-row-again", ("propka/propka.cfg", "interaction_matrix Cl  N", "interaction_matrix CL  N"))
